@@ -132,8 +132,9 @@ Fixpoint through_branch (l : list seg) (start : N) (c : cursor) (hd : block) (ac
       else
         let st := if snum x <=? rn (cu_lib c) then SNewIrr else SNew in
         let n := bnum (eb (sent x)) in
+        let lib := if snum x <? rn (cu_lib c) then seg_ref x else cu_lib c in   (* never a LIB above the block *)
         let acc' := if (n <? rn (cu_blk c)) || ((n =? rn (cu_blk c)) && negb (matches_undo (cu_step c)))
-                    then acc ++ [wrap x st (bref hd) (cu_lib c) None] else acc in
+                    then acc ++ [wrap x st (bref hd) lib None] else acc in
         if n =? rn (cu_blk c) then Some acc' else through_branch l' start c hd acc'
   end.
 
@@ -152,7 +153,8 @@ Definition blocks_through_cursor (s : fstate) (start : N) (c : cursor) : burst :
           if block_in (ri (cu_blk c)) sg then
             BOk (flat_map (fun x =>
                    if snum x <? start then []
-                   else [wrap x (if snum x <=? rn libr then SNewIrr else SNew) (bref hd) libr None]) sg)
+                   else [wrap x (if snum x <=? rn libr then SNewIrr else SNew) (bref hd)
+                              (if snum x <? rn libr then seg_ref x else libr) None]) sg)
           else
             match complete_segment (db s) (cu_blk c) with
             | None => BFuel
